@@ -367,6 +367,10 @@ func (c *Client) Mail(from string) error {
 		}
 		_, ok := c.ext["DSN"]
 		if ok && c.dsnmrtype != "" {
+			if err := validateParamValue(c.dsnmrtype); err != nil {
+				c.mutex.RUnlock()
+				return err
+			}
 			cmdStr += fmt.Sprintf(" RET=%s", c.dsnmrtype)
 		}
 	}
@@ -389,6 +393,9 @@ func (c *Client) Rcpt(to string) error {
 	c.mutex.RUnlock()
 
 	if ok && c.dsnrntype != "" {
+		if err := validateParamValue(c.dsnrntype); err != nil {
+			return err
+		}
 		_, _, err := c.cmd(25, "RCPT TO:<%s> NOTIFY=%s", quotePath(to), c.dsnrntype)
 		return err
 	}
@@ -709,6 +716,18 @@ func validatePath(addr string) error {
 }
 
 // validateLine checks to see if a line has CR or LF as per RFC 5321.
+// validateParamValue checks a value that is sent as an ESMTP parameter value (RFC 5321, section 4.1.2:
+// esmtp-value is any printable US-ASCII character except "=" and SP). Blanks would add further
+// parameters to the command, CR/LF further commands.
+func validateParamValue(value string) error {
+	for i := 0; i < len(value); i++ {
+		if value[i] <= ' ' || value[i] >= 0x7f || value[i] == '=' {
+			return errors.New("smtp: an ESMTP parameter value must not contain blanks, control characters or '='")
+		}
+	}
+	return nil
+}
+
 func validateLine(line string) error {
 	if strings.ContainsAny(line, "\n\r") {
 		return errors.New("smtp: A line must not contain CR or LF")
